@@ -5,6 +5,8 @@ import Nv.Proofs.C05Agree
 import Nv.Proofs.C05Recent
 import Nv.Proofs.C05Scan
 import Nv.Proofs.C05Elapsed
+import Nv.Proofs.C05Domain
+import Nv.Proofs.C05Conc
 /-!
 C05 — property theorems for the TTL caches (model: `Nv.Model.C05`, history spec: `Nv.Spec.C05`).
 
@@ -12,6 +14,29 @@ Every statement quantifies over all histories (`ops : List Op`, including clock 
 values, sizes, default ttls and clock readings; the configuration `c` ranges over the facts the
 statement needs (`Proved c` is the conjunction of all three). For today's source (`Cfg.today`) the
 three affected clauses are refuted by concrete witnesses at the end.
+-/
+
+/-!
+## Index: clause of the property statement → theorem(s)
+
+| clause of the statement | proved by |
+|---|---|
+| a successful Get returns the value of the latest Set of that key | `ttl_get_latest` (all histories, every cfg) |
+| … only if the key has not been removed (Remove / Clear) | `ttl_get_latest` (`histStep` forgets on remove / clear) |
+| … its time-to-live has not elapsed | `ttl_elapsed_history` (deadline = Set reading + ttl, from the history), `ttl_hit_iff_live`, `ttl_elapsed_misses` |
+| … and it was not consumed by a remove-after-get read | `ttl_get_latest`, `ttl_consumed_then_miss` |
+| and (converse) while live, recent and not removed it DOES hit | `ttl_live_recent_hits` |
+| an elapsed key behaves exactly like a key never set (Get → not-found, set-if-absent succeeds) | `ttl_expired_as_absent`, `ttl_expired_set_if_absent`, `ttl_elapsed_misses` |
+| at most `size` distinct keys are retrievable at any time (any size ≥ 0) | `ttl_bound`, `ttl_bound_hits` |
+| a key touched more recently than `size` other distinct keys is never evicted | `ttl_recent_not_evicted`, `ttl_recent_after_touch` |
+| the redis-backed cache agrees with the in-memory one (positive ttls, keep-ttl on live keys, off deadlines, below the size bound) | `ttl_mem_rds_agree`, `ttl_mem_rds_agree_keys` (size clause on the history), `ttl_mem_rds_step`; redis corners: `rds_corner_cases`; Clear: `ttl_rds_clear_all_pages` |
+| concurrent callers racing on one key: remove-after-get succeeds for at most one | `ttl_consume_once` (any call sequence without a Set of k), `ttl_consume_once_concurrent` / `_rds` (interleavings; assumption `AtomicCalls`, discharged for the regenerated facts by `tie_atomic_calls`) |
+| quantifier: any size ≥ 0, default ttl ≤ 0 or > 0, clock advances | all of the above quantify over `size`, `dttl`, `.tick` |
+
+Only monitor-checked / assumed (no theorem): that the Go methods ARE the model's steps (correspondence + facts);
+redis itself (the `Rds` model and the fake are hand-written); atomicity of a call (`AtomicCalls`: lock facts, GETDEL);
+racing callers of kinds other than remove-after-get (class `stress`, monitors `C05:concurrency:*`); value aliasing and
+ttl beyond the int64 / time.Duration range are not claimed.
 -/
 namespace Nv.C05
 
@@ -114,6 +139,50 @@ theorem ttl_consumed_then_miss (m : Mem) (now now' : Int) (k : Key) (u : Option 
 theorem ttl_consume_once (c : Cfg) (s : MSys) (hwf : WF s.mem) (k : Key) (ops : List Op)
     (hops : ∀ op ∈ ops, setsKey k op = false) : consumes k (events c s ops) ≤ 1 :=
   consumes_le_one ops s k hwf hops
+
+/-- Concurrent callers, explicitly. ASSUMPTION `AtomicCalls` (named in `Nv.Spec.C05`; holds for the regenerated facts:
+    `tie_atomic_calls`): every public call is one critical section, so an execution of racing callers is an
+    `Interleaving` of their calls. Then: for ANY number of callers, each issuing any number of remove-after-get reads
+    of `k` (with or without update-ttl), and EVERY interleaving `sched` of them, started in a state where `k` is live
+    (e.g. right after one successful Set, `ttl_set_stores`): exactly the first read in schedule order returns the
+    value, every other read misses — exactly one success. -/
+theorem ttl_consume_once_concurrent (f : Facts) (_atomic : AtomicCalls f) (c : Cfg) (s : MSys) (k : Key) (n : Node)
+    (hl : s.mem.lookup k = some n) (he : expired (secOf s.clock) n.dl = false) (progs : List (List Op))
+    (hprogs : ∀ p ∈ progs, ∀ op ∈ p, ∃ u, op = .get k ⟨true, u⟩) (sched : List Op)
+    (hs : Interleaving progs sched) (hne : sched ≠ []) :
+    outs (MSys.step c) s sched = .value n.val :: List.replicate (sched.length - 1) .notFound := by
+  have hall : ∀ op ∈ sched, ∃ u, op = .get k ⟨true, u⟩ := by
+    intro op hop
+    obtain ⟨p, hp, hin⟩ := interleaving_mem hs op hop
+    exact hprogs p hp op hin
+  cases sched with
+  | nil => exact absurd rfl hne
+  | cons op rest => simpa using consume_sched_live s hl he op rest hall
+
+/-- The same on the redis-backed cache, relative to GETDEL being atomic (`AtomicCalls.rdsConsumeIsGetDel` + redis'
+    atomic command execution): racing consuming reads without update-ttl are single GETDEL commands; in every
+    interleaving exactly the first one returns the value. (With update-ttl the read is GETDEL followed by EXPIRE, two
+    commands: not covered here; the EXPIRE then finds nothing.) -/
+theorem ttl_consume_once_concurrent_rds (f : Facts) (_atomic : AtomicCalls f) (c : Cfg) (r : Rds) (nowMs : Int) (k : Key)
+    (e : REntry) (hl : rLive nowMs k r.store = some e) (progs : List (List Op))
+    (hprogs : ∀ p ∈ progs, ∀ op ∈ p, op = .get k ⟨true, none⟩) (sched : List Op)
+    (hs : Interleaving progs sched) (hne : sched ≠ []) :
+    outs (fun r op => r.step c nowMs op) r sched = .value e.val :: List.replicate (sched.length - 1) .notFound := by
+  have hall : ∀ op ∈ sched, op = .get k ⟨true, none⟩ := by
+    intro op hop
+    obtain ⟨p, hp, hin⟩ := interleaving_mem hs op hop
+    exact hprogs p hp op hin
+  cases sched with
+  | nil => exact absurd rfl hne
+  | cons op rest => simpa using rds_consume_live r hl op rest hall
+
+/-- non-vacuity: three callers (2 + 1 + 1 reads) and one of their interleavings -/
+example : Interleaving [[.get 1 ⟨true, none⟩, .get 1 ⟨true, none⟩], [.get 1 ⟨true, none⟩], [.get 1 ⟨true, some 5⟩]]
+    [.get 1 ⟨true, none⟩, .get 1 ⟨true, some 5⟩, .get 1 ⟨true, none⟩, .get 1 ⟨true, none⟩] :=
+  .step 1 (by decide) rfl (.step 2 (by decide) rfl (.step 0 (by decide) rfl (.step 0 (by decide) rfl
+    (.done (by decide)))))
+
+example : AtomicCalls Facts.expected := ⟨rfl, rfl⟩
 
 /-- every reachable state has a well-formed index -/
 theorem ttl_reachable_wf (c : Cfg) (clock size : Nat) (dttl : Int) (ops : List Op) :
@@ -313,6 +382,41 @@ theorem ttl_mem_rds_agree (c : Cfg) (hc : Proved c) (clock size : Nat) (dttl : I
 theorem ttl_mem_rds_step (c : Cfg) (hc : Proved c) (s : Sys) (hR : Rel s) (op : Op) (ha : admOp s op) :
     (Sys.step c s op).2.1 = (Sys.step c s op).2.2 ∧ Rel (Sys.step c s op).1 :=
   agree_sys_step hc hR ha
+
+/-- "below the size bound" stated on the history: if every Set of the history uses a key of a fixed duplicate-free
+    list `K` with `|K| ≤ size` (so at most `size` distinct keys ever exist), the state-level room clause of `Admissible`
+    holds automatically — `AdmissibleK` (positive ttl unless the Set is a keep-ttl overwrite, keep-ttl on live keys,
+    no call on a key at its deadline reading, update-ttl > 0) is all that is needed. -/
+theorem ttl_mem_rds_agree_keys (c : Cfg) (hc : Proved c) (clock size : Nat) (dttl : Int) (K : List Key) (hK : K.Nodup)
+    (hlen : K.length ≤ size) (ops : List Op) (hadm : AdmissibleK c K (Sys.new clock size dttl) ops) :
+    ∀ o ∈ outs (Sys.step c) (Sys.new clock size dttl) ops, o.1 = o.2 :=
+  ttl_mem_rds_agree c hc clock size dttl ops
+    (admissibleK_imp hK ops _ (wf_new size dttl) (by intro a ha; simp [Sys.new, Mem.new, Mem.indexed, keys] at ha) hlen hadm)
+
+/-- the redis corner cases the simulation relies on, by the `Rds` model: KEEPTTL on a live key keeps its expiry (none
+    stays none); KEEPTTL on an absent / expired key stores it without expiry; a plain SET drops the ttl, SET EX
+    replaces it; SET NX succeeds on an expired key; GETDEL on an expired key returns nil and removes it; after a
+    GETDEL every later GETDEL / GET returns nil; EXPIRE on an absent key replies 0, a non-positive EXPIRE deletes. -/
+theorem rds_corner_cases (now now' : Int) (k : Key) (v : Val) (st : List REntry) :
+    (∀ e, rLive now k st = some e → rSet now k v .keepttl false st = (⟨k, v, e.exp⟩ :: rErase k st, .ok)) ∧
+    (rLive now k st = none → rSet now k v .keepttl false st = (⟨k, v, none⟩ :: rErase k st, .ok)) ∧
+    (rSet now k v .plain false st = (⟨k, v, none⟩ :: rErase k st, .ok)) ∧
+    (∀ n, 0 < n → rSet now k v (.ex n) false st = (⟨k, v, some (now + n * 1000)⟩ :: rErase k st, .ok)) ∧
+    (∀ n, 0 < n → rLive now k st = none →
+      rSet now k v (.ex n) true st = (⟨k, v, some (now + n * 1000)⟩ :: rErase k st, .ok)) ∧
+    (∀ e, rFind k st = some e → rExpired now e.exp = true → rGetDel now k st = (rErase k st, .nil)) ∧
+    ((rGetDel now' k (rGetDel now k st).1).2 = .nil ∧ (rGet now' k (rGetDel now k st).1).2 = .nil) ∧
+    (∀ s, rLive now k st = none → rExpire now k s st = (rErase k st, .int 0)) ∧
+    (∀ e s, rLive now k st = some e → s ≤ 0 → rExpire now k s st = (rErase k st, .int 1)) :=
+  ⟨fun _ h => rSet_keepttl_live h, rSet_keepttl_absent, rSet_plain_drops_ttl now k v st,
+   fun _ hn => rSet_ex_replaces_ttl now k v st hn, fun _ hn h => rSet_nx_expired h hn,
+   fun _ hf he => rGetDel_expired hf he, rGetDel_then_nil now now' k st,
+   fun s h => rExpire_absent h s, fun _ _ h hs => rExpire_nonpos_deletes h hs⟩
+
+/-- non-vacuity of `ttl_mem_rds_agree_keys`: keys {1,2}, size 2, a keep-ttl overwrite with a non-positive ttl option -/
+example : AdmissibleK Cfg.fixed [1, 2] (Sys.new 1700000000500 2 5)
+    [.set 1 5 ⟨some 3, false, false⟩, .set 2 6 ⟨none, true, false⟩, .set 1 7 ⟨some (-4), false, true⟩,
+     .get 1 ⟨false, some 2⟩, .remove 2, .get 2 ⟨false, none⟩] := admissibleKB_sound _ _ (by decide)
 
 /-! ### Clear on redis: the SCAN iteration must be followed to the end -/
 
